@@ -9,7 +9,7 @@ def _load():
         spec = importlib.util.spec_from_file_location(os.path.basename(p)[:-3], p)
         m = importlib.util.module_from_spec(spec)
         spec.loader.exec_module(m)
-        fns.append(m.extract)
+        fns.append((os.path.basename(p)[8:-3].upper(), m.extract))
     return fns
 
 ALL = _load()
